@@ -182,6 +182,13 @@ def scenario_projects() -> List[Dict[str, Any]]:
                 U("tool.lib", "from tool.__main__ import Cmd\nclass Sub(Cmd):\n    '''see L{tool.__main__}'''\n")]
     add("dunder-main-hidden-by-exact-rule", main_pkg, ["HIDDEN:tool.__main__"])
     add("dunder-main-hidden-by-pattern", main_pkg, ["PUBLIC:tool.*", "HIDDEN:**.__main__"])
+    # dunder-named classes, functions and variables (public by default) targeted by exact rules and patterns
+    add("dunder-names-targeted", [
+        U("dn", "'''dn'''\n__version__ = '1'\n'''v'''\nclass __Meta__:\n    '''meta'''\n    def __call__(self):\n        '''call'''\n"
+                "    def __len__(self):\n        '''len'''\n"
+                "class User(__Meta__):\n    '''see L{__Meta__} and L{__Meta__.__call__} and L{__version__}'''\n    def __call__(self):\n        '''mine'''\n", True),
+        U("dn.__private__", "'''a dunder module'''\ndef helper():\n    '''h'''\n"),
+    ], ["HIDDEN:dn.__Meta__", "PRIVATE:**.__call__", "HIDDEN:*.__version__", "HIDDEN:dn.__private__"])
     # (a project whose only root is hidden has no visible object at all: lunr then divides by zero and the run aborts
     #  before anything is written - nothing to crawl; counted as `run-crash` when a random rule list does it)
     add("hidden-one-of-two-roots", [U("r1", "'''one see L{r2.B}'''\nclass A:\n    '''a'''\n"), U("r2", "'''two'''\nfrom r1 import A\nclass B(A):\n    '''see L{r1}'''\n")],
